@@ -39,7 +39,45 @@ def cases(seed, tier):
         else:
             out.append({"gen": "features_zoo", "seed": rng.randrange(2 ** 31), "only_border": rng.random() < 0.2, "corner_order": rng.choice([4, 6]),
                         "max_size": 5})
+    # very pointed feature vertices (tip of a pennant or of a thin rhombus, apex of a slender spike): angle sums far below 2*pi/corner_order;
+    # and one-rung hinges (the crease is an interior edge joining two border vertices)
+    for i in range(30 if tier == "quick" else 3000):
+        out.append({"gen": "pointed", "seed": rng.randrange(2 ** 31), "shape": ["pennant", "rhombus", "spike"][i % 3], "corner_order": rng.choice([4, 4, 6, 3, 8]),
+                    "tip_deg": rng.choice([3.0, 8.0, 14.0, 21.0, 28.0, 33.0, 41.0, 52.0])})
     return out
+
+
+def _pointed_case(desc, ctx):
+    rng = random.Random(desc["seed"])
+    a = math.radians(desc["tip_deg"])
+    if desc["shape"] == "pennant":
+        m = rng.randint(1, 3)
+        w = math.tan(a / 2)
+        V = [[0.0, 0.0, 0.0]] + [[1.0, -w + 2 * w * k / m, 0.0] for k in range(m + 1)]
+        F = [[0, 1 + k, 2 + k] for k in range(m)]
+    elif desc["shape"] == "rhombus":
+        w = math.tan(a / 2)
+        V = [[0.0, 0.0, 0.0], [1.0, -w, 0.0], [2.0, 0.0, 0.0], [1.0, w, 0.0]]
+        F = [[0, 1, 3], [1, 2, 3]]
+    else:
+        nb = rng.choice([3, 4, 5])
+        r = 1.0
+        # slender pyramid without its base: nb side triangles, each with apex angle a / nb
+        half = a / nb / 2
+        side = r * math.sin(math.pi / nb) / math.sin(half)  # length of the slanted edges
+        h = math.sqrt(max(side * side - r * r, 1e-12))
+        V = [[0.0, 0.0, h]] + [[r * math.cos(2 * math.pi * k / nb), r * math.sin(2 * math.pi * k / nb), 0.0] for k in range(nb)]
+        F = [[0, 1 + k, 1 + (k + 1) % nb] for k in range(nb)]
+    V = np.array(V, float)
+    if rng.random() < 0.5:
+        V, F, _ = surfaces.renumber(V, F, rng)
+    if rng.random() < 0.5:
+        F = surfaces.rotate_faces(F, rng)
+    V, _, _ = surfaces.rigid(V, rng)
+    ctx.cls("pointed:%s" % desc["shape"])
+    ctx.cls("tip_angle_times_order_over_2pi:%s" % ("below_half" if a * desc["corner_order"] / (2 * math.pi) < 0.5 else "above_half"))
+    ctx.nontrivial(stable_hash([desc["shape"], desc["tip_deg"], desc["corner_order"], desc["seed"]]))
+    _feature_oracle(ctx, V, [list(map(int, f)) for f in F], None, False, desc["corner_order"], True, "pointed", None)
 
 
 # ----------------------------------------------------------------------------- border
@@ -430,8 +468,9 @@ def _hinge_case(desc, ctx):
     rng = random.Random(desc["seed"])
     thr = 0.5 if desc["threshold"] == "sharp" else 0.8
     phi = math.acos(thr) + desc["delta"]
-    n = rng.randint(2, 6)
+    n = rng.randint(1, 6)  # n = 1: a single rung, the crease joins two border vertices
     V, F, crease = _hinge(rng, phi, n)
+    ctx.cls("hinge:crease_edges:%s" % ("one" if n == 1 else "several"))
     if rng.random() < 0.5:
         V, F2, perm = surfaces.renumber(V, F, rng)
         crease = [(perm[a], perm[b]) for (a, b) in crease]
@@ -486,5 +525,7 @@ def run_case(desc, ctx):
         _border_case(desc, ctx)
     elif desc["gen"] == "hinge":
         _hinge_case(desc, ctx)
+    elif desc["gen"] == "pointed":
+        _pointed_case(desc, ctx)
     else:
         _features_zoo_case(desc, ctx)
